@@ -159,6 +159,9 @@ def judge_tree(run, bench, pv, rng, mon):
             # re-parse
             st2, mr = harness.model_parse(fam, want, 0)
             rr = harness.lib_unpack(bench.root(v), r.pkt, 0)
+            if rr.status == "timeout":
+                run.count("watchdog_skipped")
+                continue
             if rr.status != "ok":
                 run.violation("unpack(p.pack()) failed: %s" % (str(rr.err)[:200]), dict(witness, packed=b2j(r.pkt)), None)
                 continue
@@ -199,6 +202,9 @@ def judge_tree(run, bench, pv, rng, mon):
                     break
                 again = harness.lib_pack(pkt)
                 run.count("repacks_after_failed_pack_of_another_packet")
+                if again.status == "timeout":
+                    run.count("watchdog_skipped")
+                    break
                 if again.status != "ok" or again.pkt != want:
                     run.violation("after a failing pack() of another packet of the class this packet no longer serializes to the encoding of its values",
                                   dict(witness, failing_packet_mutation=desc, packed=b2j(again.pkt) if again.status == "ok" else str(again.err)[:200],
@@ -223,6 +229,9 @@ def judge_tree(run, bench, pv, rng, mon):
                 setattr(obj, path[-1], newv)
                 r3 = harness.lib_pack(pkt)
                 run.count("repacks_after_assignment")
+                if r3.status == "timeout":
+                    run.count("watchdog_skipped")
+                    break
                 if r3.status != "ok" or r3.pkt != er3.data:
                     run.violation("after assigning a field on an already serialized packet, pack() is not the encoding of the new values",
                                   dict(witness, assigned={"path": path, "old": model.val_json(old), "new": model.val_json(newv)},
@@ -243,6 +252,9 @@ def judge_tree(run, bench, pv, rng, mon):
             r1 = harness.lib_pack(pkt)
             run.count("packs_with_automatic_fields_left_to_compute")
             witness = {"source": driver.src_of(bench, v), "variant": v, "values": pv.to_json(), "fam": fam, "how": "kwargs without the automatic fields"}
+            if r1.status == "timeout":
+                run.count("watchdog_skipped")
+                continue
             if r1.status != "ok" or r1.pkt != want:
                 run.violation("pack() of a packet whose automatic fields were left to compute is not the encoding of its values",
                               dict(witness, packed=b2j(r1.pkt) if r1.status == "ok" else str(r1.err)[:200], reference=b2j(want)), None)
@@ -265,6 +277,9 @@ def judge_tree(run, bench, pv, rng, mon):
             setattr(pkt, tracked, newv)
             r2 = harness.lib_pack(pkt)
             run.count("repacks_after_changing_a_tracked_field")
+            if r2.status == "timeout":
+                run.count("watchdog_skipped")
+                continue
             if r2.status != "ok" or r2.pkt != er5.data:
                 run.violation("after a first pack(), replacing the field an automatic length tracks and packing again does not give the encoding of "
                               "the new values", dict(witness, tracked=tracked, new_value=b2j(newv),
